@@ -141,11 +141,14 @@ fn run_case(name: &str, cap: Option<usize>, progs: Vec<Vec<String>>, ndispatch: 
         };
         per_thread.push(h);
     }
+    // handles a program leaves undropped stay alive for the rest of the case and are released when it is over
+    let leftovers: Arc<Mutex<Vec<Handles>>> = Arc::new(Mutex::new(Vec::new()));
     for (i, (prog, mut handles)) in progs.into_iter().zip(per_thread.into_iter()).enumerate() {
         let sh = shared.clone();
+        let lo = leftovers.clone();
         joins.push(sched.spawn(i + 1, move || {
             exec_prog(&prog, &mut handles, &sh, i + 1);
-            std::mem::forget(handles);
+            lo.lock().unwrap().push(handles);
         }));
     }
     drop(first); // empty by now
@@ -264,6 +267,7 @@ fn run_race(name: &str, cap: Option<usize>, progs: Vec<Vec<String>>, rounds: usi
             .map_err(|e| e.error)
             .unwrap();
         let finished = Arc::new(std::sync::atomic::AtomicUsize::new(0));
+        let leftovers: Arc<Mutex<Vec<Handles>>> = Arc::new(Mutex::new(Vec::new()));
         for (i, prog) in progs.iter().cloned().enumerate() {
             let mut handles = match &mut first {
                 Handles::Async(v) => Handles::Async(vec![if i + 1 == n { v.pop().unwrap() } else { v[0].clone() }]),
@@ -271,10 +275,11 @@ fn run_race(name: &str, cap: Option<usize>, progs: Vec<Vec<String>>, rounds: usi
             };
             let sh = shared.clone();
             let fin = finished.clone();
+            let lo = leftovers.clone();
             std::thread::spawn(move || {
                 exec_prog(&prog, &mut handles, &sh, i + 1);
-                // handles the program left over stay alive (as in the controlled runs)
-                std::mem::forget(handles);
+                // handles the program left over stay alive for the round (as in the controlled runs)
+                lo.lock().unwrap().push(handles);
                 fin.fetch_add(1, Ordering::SeqCst);
             });
         }
@@ -310,6 +315,7 @@ fn run_race(name: &str, cap: Option<usize>, progs: Vec<Vec<String>>, rounds: usi
             // a sender is blocked for good: leave it and the loop behind
             std::mem::forget(el);
         }
+        drop(leftovers);
     }
     writeln!(out, "final").unwrap();
 }
